@@ -457,7 +457,8 @@ TEXT = ("Held on every execution observed: after each of ~20 000 (quick) / ~1.5 
         "generated histories the whole world is compared with an independent pull-model evaluation; chains, "
         "reverse-defined chains, fans and lattices up to 10 000 dependants are checked against closed forms. "
         "Exploration, not proof: the ∀ over histories/graphs is sampled up to the stated bounds."
-        ' Whole-container reads (f.tot(container)) over dicts, lists, attribute containers and nested dicts are part of the term language; open findings KF1, KF5, KF6 are re-run from fixed witnesses on every run.')
+        ' Whole-container reads (f.tot(container)) over dicts, lists, attribute containers and nested dicts are part of the term language; open findings KF1, KF5, KF6 are re-run from fixed witnesses on every run.'
+        ' In-place updates on SHARED mutable values (lists, arrays, dicts, sets held by two locations of one or two managers) and worlds whose sibling keys are hash-colliding integers (-1/-2, 0/2**61-1) are part of every run.')
 NOTE = ("Trusted: the shadow evaluator (Python operators applied to shadow values), the tracing containers, the "
         "generator's premise filter (ops Python itself rejects are dropped). KF1/KF5 mismatches are classified by "
         "mechanism and reported as KNOWN-FINDING.")
